@@ -1,5 +1,6 @@
 import Beetswap.Proofs.ClientView
 import Beetswap.Generated
+import Beetswap.Proofs.ClientLink
 /-!
 # C05 — Wantlist delivery self-heals after any transmission fault (partial)
 
@@ -65,5 +66,27 @@ theorem timers_are_spec :
     Generated.implSendFullIntervalMs = sendFullInterval ∧
     Generated.implReceiveRequestTimeoutMs = receiveRequestTimeout ∧
     Generated.implStartSendingTimeoutMs = 5000 := by decide
+
+/-! ### Known finding F13, stated on the composition `Model/ClientLink` (see `known_findings.json`) -/
+section F13
+open Beetswap.ClientLink
+
+/-- PARTIAL — what C05 promises and the code does not deliver under a late acknowledgement: the trace
+`f13Trace` (one connection whose task is not scheduled for `RECEIVE_REQUEST_TIMEOUT` after it was
+handed the first wantlist) reaches a state in which the connection is alive, its handler has sent
+that wantlist completely and is `Ready`, and the behaviour has no entry for the peer any more — the
+CID wanted afterwards (8) is never announced although the peer has a working connection. The
+theorems above hold for every run in which acknowledgements are not late. -/
+theorem f13_live_connection_given_up :
+    (ClientLink.run {} Proofs.ClientLink.f13Trace).cl.s.peers.toList.map (·.1) = [] ∧
+    ((ClientLink.run {} Proofs.ClientLink.f13Trace).links[1]?.map fun l =>
+      (!l.gone && !l.h.closing && decide (l.h.ss = ClientHandler.HS.ready) && l.cmds.isEmpty && l.reps.isEmpty)) = some true ∧
+    (ClientLink.run {} Proofs.ClientLink.f13Trace).cl.s.wantlist.cids.toList = [7, 8] :=
+  Proofs.ClientLink.f13_live_connection_given_up
+
+theorem f13_reachable : ClientLink.Reachable (ClientLink.run {} Proofs.ClientLink.f13Trace) :=
+  Proofs.ClientLink.f13_reachable
+
+end F13
 
 end Beetswap.Props.C05
